@@ -260,9 +260,36 @@ Definition otfad_unwrap (D : cipher) (kek : list N) (swapcnt : Z) (rec : list N)
   let w' := if swapcnt >? 0 then swap_groups (Z.to_nat swapcnt) w else w in
   match kw_unwrap (D kek) w' with
   | None => None
-  | Some p => if (le_dec (firstn 4 (skipn 36 p)) =? crc CRC32_MPEG2 (firstn 32 p))%N
+  | Some p => if eqb_list (firstn 4 (skipn 36 p)) (le_enc 4 (crc CRC32_MPEG2 (firstn 32 p)))
               then Some (octx_of_plain p) else None
   end.
+
+(* ---------------- OTFAD: specification-side vocabulary of the theorems ---------------- *)
+(* the context the hardware holds for a blob (= octx_of_plain of its plain_data, lemma kb_plain / otfad_keyblob_unwrap) *)
+Definition octx_of_blob (k : kblob) : octx :=
+  {| oc_key := kb_key k; oc_ctr := kb_ctr k; oc_w0 := kb_start k; oc_w1 := kb_end_with_flags k |}.
+
+(* the 1 KiB units selected by SRTADDR[31:10] .. ENDADDR[31:10] of the exported blob *)
+Definition kb_covers (k : kblob) (a : Z) : bool :=
+  (kb_start k / 1024 <=? a / 1024) && (a / 1024 <=? (kb_end k - 1) / 1024).
+
+(* 1 KiB-aligned range given either as [start, end) (end a multiple of 1024, as in the configuration templates) or
+   as [start, end] (end = ...3FF, as in the API examples) *)
+Definition kb_wf (k : kblob) : Prop :=
+  length (kb_ctr k) = 8%nat /\ 0 <= kb_start k /\ kb_start k mod 1024 = 0 /\ kb_start k < kb_end k /\
+  kb_end k <= 4294967295 /\ (kb_end k mod 1024 = 0 \/ kb_end k mod 1024 = 1023) /\ 0 <= kb_flags k < 8.
+
+Definition blobs_disjoint (bl : list kblob) : Prop :=
+  ForallOrdPairs (fun k1 k2 => forall a, kb_covers k1 a = true -> kb_covers k2 a = false) bl.
+
+(* no valid + decrypting context covers this address *)
+Definition otfad_outside (blobs : list kblob) (a : Z) : Prop :=
+  forall k, In k blobs -> kb_covers k a = true -> kb_is_encrypted k = false.
+
+(* blobs whose byte fields are well formed (what KeyBlob.export can serialise) *)
+Definition kb_codec_wf (k : kblob) : Prop :=
+  kb_wf k /\ length (kb_key k) = 16%nat /\ wf_bytes (kb_key k) /\ wf_bytes (kb_ctr k) /\
+  (kb_zero k = [] \/ (length (kb_zero k) = 4%nat /\ wf_bytes (kb_zero k))) /\ kb_crcfill k = [].
 
 (* ================================================================== IEE ============================== *)
 Record iblob := { ib_lock : Z; ib_keyattr : Z; ib_mode : Z; ib_start : Z; ib_end : Z;
@@ -400,12 +427,39 @@ Definition iee_hw (E D : cipher) (ctxs : list ictx) (base : Z) (data : list N) :
    every 96-byte record must carry the header tag, the version and a correct CRC-32/MPEG-2 *)
 Definition iee_record_ok (r : list N) : bool :=
   (le_dec (firstn 4 r) =? 1229276482)%N && (le_dec (firstn 4 (skipn 4 r)) =? 1442906112)%N
-  && (le_dec (firstn 4 (skipn 92 r)) =? crc CRC32_MPEG2 (firstn 92 r))%N.
+  && eqb_list (firstn 4 (skipn 92 r)) (le_enc 4 (crc CRC32_MPEG2 (firstn 92 r))).
 
 Definition iee_unwrap (E D : cipher) (kek1 kek2 : list N) (addr : Z) (n : nat) (table : list N) : option (list ictx) :=
   let p := xts_crypt (D (word_rev kek1)) (E (word_rev kek2)) true (le_enc 16 (Z.to_N (addr / 4096))) table in
   let recs := firstn n (chunks 96 p) in
   if Nat.eqb (length recs) n && forallb iee_record_ok recs then Some (map ictx_of_plain recs) else None.
+
+(* ---------------- IEE: specification-side vocabulary of the theorems ---------------- *)
+Definition ictx_of_blob (b : iblob) : ictx :=
+  {| ic_mode := ib_mode b; ic_keyattr := ib_keyattr b; ic_key1 := ib_key1 b; ic_key2 := ib_key2 b;
+     ic_start := ib_start b; ic_end := ib_end b |}.
+Definition ib_covers (b : iblob) (a : Z) : bool := (ib_start b <=? a) && (a <? ib_end b).
+(* 4 KiB-aligned region [start, end); keys made of whole 32-bit words; AES-XTS or AES-CTR with address binding *)
+Definition ib_wf (b : iblob) : Prop :=
+  0 <= ib_start b /\ ib_start b mod 4096 = 0 /\ ib_end b mod 4096 = 0 /\ ib_start b < ib_end b /\ ib_end b <= 4294967295 /\
+  Nat.modulo (length (ib_key1 b)) 4 = 0%nat /\ Nat.modulo (length (ib_key2 b)) 4 = 0%nat /\
+  (ib_mode b = MODE_XTS \/ (ib_mode b = MODE_CTR_ADDR /\ length (ib_key2 b) = 16%nat)).
+Definition iblobs_disjoint (bl : list iblob) : Prop :=
+  ForallOrdPairs (fun b1 b2 => forall a, ib_covers b1 a = true -> ib_covers b2 a = false) bl.
+Definition iee_outside (blobs : list iblob) (a : Z) : Prop := forall b, In b blobs -> ib_covers b a = false.
+(* the cipher laws needed for a blob: XTS needs D o E = id on 16-byte blocks under the data key and a well-behaved E
+   under the tweak key; CTR only needs E to produce 16-byte blocks *)
+Definition okblock (b : list N) : Prop := length b = 16%nat /\ wf_bytes b.
+Definition ib_cipher_ok (E D : cipher) (b : iblob) : Prop :=
+  if ib_mode b =? MODE_XTS
+  then (forall x, okblock x -> D (word_rev (ib_key1 b)) (E (word_rev (ib_key1 b)) x) = x) /\
+       (forall x, okblock x -> okblock (E (word_rev (ib_key1 b)) x)) /\
+       (forall x, okblock x -> okblock (E (word_rev (ib_key2 b)) x))
+  else forall x, length x = 16%nat -> length (E (word_rev (ib_key1 b)) x) = 16%nat.
+(* first counter word + number of the last 16-byte block that SPSDK encrypts in the region stays below 2^32 *)
+Definition ib_no_ctr_overflow (b : iblob) (top : Z) : Prop :=
+  ib_mode b = MODE_CTR_ADDR ->
+  Z.of_N (be_dec (skipn 12 (word_rev (ib_key2 b)))) + Z.min (top + 15) (ib_end b) / 16 <= 4294967296.
 
 (* ================================================================== BEE ============================== *)
 Record fac := { fc_start : Z; fc_len : Z; fc_level : Z }.
@@ -535,6 +589,22 @@ Definition bee_unwrap (D : cipher) (swkey : list N) (hdr : list N) : option (lis
              pf_regions := map (fun i => (u32_at p (80 + 32 * i), u32_at p (84 + 32 * i), u32_at p (88 + 32 * i))) (seq 0 n) |})
   else None.
 
+(* ---------------- BEE: specification-side vocabulary of the theorems ---------------- *)
+Definition bee_actives (ohs : list (option bhdr)) : list bhdr :=
+  concat (map (fun o => match o with Some h => [h] | None => [] end) ohs).
+Definition fac_covers (f : fac) (a : Z) : bool := (fc_start f <=? a) && (a <? fc_end f).
+Definition bh_covers (h : bhdr) (a : Z) : bool := existsb (fun f => fac_covers f a) (bh_facs h).
+(* FAC region [start, start+length) on the 1 KiB grid *)
+Definition fac_wf (f : fac) : Prop :=
+  0 <= fc_start f /\ fc_start f mod 1024 = 0 /\ fc_len f mod 1024 = 0 /\ 0 < fc_len f /\ fc_end f <= 4294967295.
+(* what BeeProtectRegionBlock.validate accepts: AES-CTR, 16-byte counter whose last four bytes are zero, 16-byte key *)
+Definition bh_wf (h : bhdr) : Prop :=
+  bh_mode h = 1 /\ length (bh_swkey h) = 16%nat /\ length (bh_counter h) = 16%nat /\ wf_bytes (bh_counter h) /\
+  skipn 12 (bh_counter h) = [0; 0; 0; 0]%N /\ Forall fac_wf (bh_facs h).
+Definition bheaders_disjoint (hs : list bhdr) : Prop :=
+  ForallOrdPairs (fun h1 h2 => forall a, bh_covers h1 a = true -> bh_covers h2 a = false) hs.
+Definition bee_outside (hs : list bhdr) (a : Z) : Prop := forall h, In h hs -> bh_covers h a = false.
+
 (* ================================================================== run_case ========================= *)
 Definition vb (r : res (list N)) : value := vres VBytes r.
 Definition zb (z : Z) : bool := negb (z =? 0).
@@ -646,7 +716,7 @@ Definition run_case (fn : Z) (args : list value) : value :=
       | _ => VErr E_BADCASE end
   | 22, [VList hl; VBytes data; VInt base] =>
       match all_some bhdr_of hl with
-      | Some hs => VBytes (bee_hw aes_c (map bctx_of (concat (map (fun o => match o with Some h => [h] | None => [] end) hs))) base data)
+      | Some hs => VBytes (bee_hw aes_c (map bctx_of (bee_actives hs)) base data)
       | None => VErr E_BADCASE end
   | 23, [VBytes sw; VBytes hdr] =>
       match bee_unwrap aes_d sw hdr with
